@@ -5,6 +5,7 @@ import I18n.Lemmas.MsgRangeCount
 import I18n.Lemmas.MsgRegex
 import I18n.Lemmas.MsgFormatDecl
 import I18n.Lemmas.MsgFileLevel
+import I18n.Spec.StringFormatsRef
 /-
 C16 — message-level diagnostics match their documented conditions.
 
@@ -746,6 +747,30 @@ theorem find_unusual_iff (xml : Str → XmlVerdict) (s : Str) (c : Nat) :
   have h := mem_findAllFrom_iff (inRanges Generated.StringFormats.wordRanges) Generated.StringFormats.unusualAlts s none c
   simp only [Option.or_none, unusual_class_documented] at h
   exact h
+
+/-- PIN against the HAND-MAINTAINED reference of the format languages (Spec/StringFormatsRef.lean, not regenerated): every
+    reference format is in data/string-formats, and for every PAIR of reference formats the data file decides "share an example
+    directive" — the test behind `conflicting-message-flags` for two positive format flags — exactly as the reference does.
+    Formats the reference does not list are not compared: adding a format to the data file, or re-ordering it, keeps this true. -/
+theorem string_formats_compat_pin :
+    ∀ a ∈ Spec.StringFormatsRef.names, liveFlagEnv.isFormat a = true ∧
+      ∀ b ∈ Spec.StringFormatsRef.names,
+        shareExample liveFlagEnv a b = Spec.StringFormatsRef.compatible Spec.StringFormatsRef.table a b := by
+  have h : Spec.StringFormatsRef.agrees liveFlagEnv.formats = true := by decide +kernel
+  simp only [Spec.StringFormatsRef.agrees, List.all_eq_true, Bool.and_eq_true, beq_iff_eq] at h
+  intro a ha
+  exact ⟨by simpa [FlagEnv.isFormat] using (h a ha).1, fun b hb => (h a ha).2 b hb⟩
+
+/-- hence, for the running tool's table: two positive flags of reference formats conflict iff the REFERENCE calls the two
+    format languages incompatible -/
+theorem positive_conflict_by_reference {f₁ f₂ : Str} (h₁ : f₁ ∈ Spec.StringFormatsRef.names) (h₂ : f₂ ∈ Spec.StringFormatsRef.names) :
+    shareExample liveFlagEnv f₁ f₂ = false ↔ Spec.StringFormatsRef.compatible Spec.StringFormatsRef.table f₁ f₂ = false := by
+  rw [(string_formats_compat_pin f₁ h₁).2 f₂ h₂]
+
+/-- the reference knows what it claims to: the printf family is pairwise compatible, and e.g. `c` vs `python-brace` is not -/
+example : Spec.StringFormatsRef.compatible Spec.StringFormatsRef.table (lit "c") (lit "boost") = true ∧
+    Spec.StringFormatsRef.compatible Spec.StringFormatsRef.table (lit "c") (lit "python-brace") = false ∧
+    Spec.StringFormatsRef.compatible Spec.StringFormatsRef.table (lit "java") (lit "python-brace") = true := by decide
 
 /-! ## non-vacuity -/
 
